@@ -189,10 +189,12 @@ CHECKS["C01"] = dict(
     jobs=[dict(pkg="internal/verifchain", entry="HC01Chain", params=dict(members=8, nested=0), flags=["-unwind", "1200"],
                require_covers=["write error injected", "read error injected", "packet read", "close error"]),
           dict(pkg="internal/verifchain", entry="HC01Chain", params=dict(members=3, nested=1), flags=["-unwind", "1200"],
-               require_covers=["close error", "nested close error"])],
-    bounds=dict(quick="every ordered pair (64) of {NoOp, TWCC header extension, NACK responder, NACK generator, report sender, report receiver, TWCC sender, RFC 8888 sender} built by their factories with default options, behind counting proxies; 2 outgoing packets (symbolic timestamp/marker/payload of 0..3 symbolic bytes, sequence numbers 65535 and 0) with a downstream write error injected at either or no position; one incoming packet of 12..16 bytes (fixed first byte 0x80, 15 symbolic bytes) or a failing read; Unbind of both streams, Close with symbolic Close errors per member; for pairs of the first 3 kinds additionally with the second member wrapped in a nested chain together with a third failing member; loop goroutines run in the cooperative thread model (no ticker fires)",
+               require_covers=["close error", "nested close error"])]
+         + [dict(pkg="internal/verifchain", entry="HC01Chain", params=dict(members=8, nested=0, first=k, swap=sw), flags=["-unwind", "1200"], require_covers=["packet read"])
+            for k in (8, 10, 11, 12, 13, 14) for sw in (0, 1)],
+    bounds=dict(quick="[plus: each of packetdump receiver, intervalpli, rtpfb, stats, flexfec (FEC not negotiated), packetdump sender paired in both orders with each of the 8 kinds below] every ordered pair (64) of {NoOp, TWCC header extension, NACK responder, NACK generator, report sender, report receiver, TWCC sender, RFC 8888 sender} built by their factories with default options, behind counting proxies; 2 outgoing packets (symbolic timestamp/marker/payload of 0..3 symbolic bytes, sequence numbers 65535 and 0) with a downstream write error injected at either or no position; one incoming packet of 12..16 bytes (fixed first byte 0x80, 15 symbolic bytes) or a failing read; Unbind of both streams, Close with symbolic Close errors per member; for pairs of the first 3 kinds additionally with the second member wrapped in a nested chain together with a third failing member; loop goroutines run in the cooperative thread model (no ticker fires)",
                 thorough="same"),
-    outside=["chains longer than 2", "rtpfb, stats, packetdump, intervalpli, flexfec, cc interceptors and the buffering ones", "ticker-driven feedback interleaved with traffic", "RTCP traffic through the chain", "non-default options", "header shapes with CSRC/extensions on the outgoing side"],
+    outside=["chains longer than 2", "cc/gcc interceptor and the buffering ones (jitter buffer, pacers); flexfec with FEC negotiated", "ticker-driven feedback interleaved with traffic", "RTCP traffic through the chain", "non-default options", "header shapes with CSRC/extensions on the outgoing side"],
     assumptions=["cooperative threads: goroutines run only when the caller blocks or yields", "time.NewTicker channels never fire unless the harness says so", "pion/logging is a no-op", "rand sources nondeterministic"],
 )
 
